@@ -76,13 +76,24 @@ struct ChunkResult {
     harness_error: Option<String>,
 }
 
+/// One run = one fresh OS thread: every thread-local in the library, in sim-alea and in the
+/// allocator seam starts from its initial value, so a run cannot depend on the runs that the
+/// same worker process executed before it (and a replay in a fresh process sees the same).
 fn run_one<P: Prop>(case: &P::Case, st: &mut Stats) -> Result<Option<Viol>, String> {
-    alloc_seam::reset_policy();
-    let r = catch(|| P::exec(case, st));
-    alloc_seam::reset_policy();
-    alea::sim::clear_budget();
-    alea::sim::clear_script();
-    r
+    std::thread::scope(|s| {
+        let h = std::thread::Builder::new()
+            .stack_size(8 << 20)
+            .spawn_scoped(s, || {
+                alloc_seam::reset_policy();
+                let r = catch(|| P::exec(case, st));
+                alloc_seam::reset_policy();
+                alea::sim::clear_budget();
+                alea::sim::clear_script();
+                r
+            })
+            .map_err(|e| format!("cannot spawn run thread: {}", e))?;
+        h.join().unwrap_or_else(|_| Err("run thread died".to_string()))
+    })
 }
 
 fn worker<P: Prop>(tier: Tier, seed: u64, start: u64, end: u64, prefix: &str, skip: &[u64]) -> i32 {
